@@ -392,3 +392,99 @@ func lpFragment(fr []byte) []byte {
 	}
 	return p.LpPacket.Fragment.Join()
 }
+
+// TestXportReconnect: a permanent TCP face whose connection is reset in the middle of a block and which then connects again.
+// What was received of the broken block belongs to the dead connection: the blocks handed on are the whole blocks of the first
+// connection followed by exactly the blocks of the second (T_C11xport).
+func TestXportReconnect(t *testing.T) {
+	defer watchDriver("TestXportReconnect")()
+	w := newTrace("xport_re.ndjson")
+	defer w.Close()
+	cfg := core.DefaultConfig()
+	cfg.Core.LogLevel = "FATAL"
+	cfg.Faces.CongestionMarking = false
+	core.LoadConfig(cfg, "")
+	core.InitializeLogger("")
+	core.ShouldQuit = false
+	face.Configure()
+	fw.Threads = make([]*fw.Thread, 1)
+	rec := &syncThread{}
+	dispatch.InitializeFWThreads([]dispatch.FWThread{rec})
+	n := envInt("VERIF_N", 6)
+	total := 0
+	for tr := 0; tr < n; tr++ {
+		rng := rand.New(rand.NewSource(verifSeed()*37 + int64(tr)))
+		ln, err := net.Listen("tcp4", "127.0.0.1:0")
+		if err != nil {
+			t.Fatalf("listen: %v", err)
+		}
+		port := ln.Addr().(*net.TCPAddr).Port
+		tp, err := face.MakeUnicastTCPTransport(defn.MakeTCPFaceURI(4, "127.0.0.1", uint16(port)), nil, face.PersistencyPermanent)
+		if err != nil {
+			t.Fatalf("transport: %v", err)
+		}
+		opt := face.MakeNDNLPLinkServiceOptions()
+		opt.IsFragmentationEnabled = false
+		ls := face.MakeNDNLPLinkService(tp, opt)
+		ls.Run(nil)
+		accept := func() net.Conn {
+			ln.(*net.TCPListener).SetDeadline(time.Now().Add(15 * time.Second))
+			c, err := ln.Accept()
+			if err != nil {
+				return nil
+			}
+			return c
+		}
+		c1 := accept()
+		if c1 == nil {
+			t.Fatalf("the transport did not connect")
+		}
+		frames1, raws1 := xpBlocks(rng, 2+rng.Intn(4), 8700)
+		broken, _ := xpBlocks(rng, 1, 8700)
+		frames2, raws2 := xpBlocks(rng, 5+rng.Intn(10), 8700)
+		base := rec.count()
+		w.Emit(map[string]any{"ev": "Reset", "blocks": blockRows(append(append([][]byte{}, raws1...), raws2...)), "mode": "xport", "kind": "tcp-reconnect", "dir": "rx"})
+		for _, fr := range frames1 {
+			c1.Write(fr)
+		}
+		cut := 1 + rng.Intn(len(broken[0])-1) // inside the block: in its type/length or in its value
+		if tr%2 == 0 {
+			cut = 1 + rng.Intn(3)
+		}
+		c1.Write(broken[0][:cut])
+		stalled := -1
+		if !rec.waitFor(base+len(frames1), 20*time.Second) {
+			stalled = rec.count() - base
+		}
+		time.Sleep(20 * time.Millisecond) // the partial block has been read
+		c1.(*net.TCPConn).SetLinger(0)
+		c1.Close() // reset, not an orderly close: a permanent face connects again
+		c2 := accept()
+		if c2 == nil {
+			stalled = rec.count() - base
+		} else {
+			for _, fr := range frames2 {
+				c2.Write(fr)
+			}
+			if stalled < 0 && !rec.waitFor(base+len(frames1)+len(frames2), 20*time.Second) {
+				stalled = rec.count() - base
+			}
+		}
+		time.Sleep(5 * time.Millisecond)
+		rec.mu.Lock()
+		var got [][]byte
+		for _, p := range rec.got[base:] {
+			got = append(got, p.Raw)
+		}
+		rec.mu.Unlock()
+		w.Emit(map[string]any{"ev": "stream", "frames": blockRows(got), "stalled": stalled})
+		total += 2
+		ls.Close()
+		if c2 != nil {
+			c2.Close()
+		}
+		ln.Close()
+		time.Sleep(2 * time.Millisecond)
+	}
+	writeMeta("xport_re.meta.json", map[string]any{"executions": n, "events": total})
+}
